@@ -6,6 +6,15 @@ from core import Corr, Violation, run_driver
 from extract import c16_ast, c16_gen as G, c16_dot as D, c16_oracle as O
 
 ID = "C16"
+#: functions the hand-written model transcribes: their control skeleton / full text (extract/shape.py) is regenerated into
+#: Gen/C16.lean and compared with the literal in Properties/C16.lean (`modelled_functions_have_the_transcribed_shape`)
+SHAPES = [
+    ("shapePipelineInfo", "mlinsights/plotting/visualize.py", "_pipeline_info"),
+    ("shapePipeline2dot", "mlinsights/plotting/visualize.py", "pipeline2dot", "full"),
+    ("shapePipeline2str", "mlinsights/plotting/visualize.py", "pipeline2str", "full"),
+    ("shapeEnumerate", "mlinsights/helpers/pipeline.py", "enumerate_pipeline_models"),
+    ("shapeAlterForDebugging", "mlinsights/helpers/pipeline.py", "alter_pipeline_for_debugging"),
+]
 SRC_PIPE = "mlinsights/helpers/pipeline.py"
 SRC_VIS = "mlinsights/plotting/visualize.py"
 LEAN_TARGETS = ["MlVerif.Gen.C16", "MlVerif.Model.Pipeline", "MlVerif.Lemmas.Pipeline", "MlVerif.Lemmas.PipelineReach",
@@ -329,6 +338,14 @@ def search(ctx, hints):
         cases.append({"op": "debug", "spec": G.gen_exec(rng, rng.randint(1, min(maxd, 5)), names, kind == "df",
                                                         leaves=("sk", "exact")[t % 2]),
                       "kind": kind, "names": names, "data_seed": rng.randrange(1 << 30)})
+    # column names that are another name plus a digit (x1 ... x10), a FeatureUnion on one named column next to a
+    # transformer on the column whose name the union's generated output names could collide with
+    xs = ["x%d" % i for i in range(1, 11)]
+    for kind in ("df", "list"):
+        cases.append({"op": "dot", "kind": kind, "names": xs, "data_seed": 1,
+                      "spec": {"t": "cols", "rem": "drop",
+                               "items": [[{"t": "union", "items": [E("T", "StandardScaler"), E("T", "MinMaxScaler")]}, ["x1"]],
+                                         [E("T", "Normalizer"), ["x10"]]]}})
     # KNOWN FINDING probe (input class excluded from the generator, see ASSUMPTIONS): named columns below an
     # integer-column entry / after a 'passthrough' step, where _pipeline_info only has a list of names left
     cases.append({"op": "dot", "probe": "named-columns-on-list-data", "kind": "df", "names": ["a", "b", "c"],
